@@ -14,13 +14,14 @@ func init() {
 		ID: "C01", Fn: c01,
 		Rule: "every node = one (position, how-reached) pair whose engine legal-move multiset is compared with refchess; corpus = curated hard cases + mirrors + repo test FENs + weighted random playouts + synthesised legal positions + full-width trees; perft node totals in both generator modes; distinct = distinct position identities (placement/side/rights/ep) compared",
 		Assumptions: []string{"refchess (independent rules implementation, gated by published perft counts in setup) is the oracle", "positions are legal and have consistent castling rights / ep target"},
-		Required: []string{"ep_legal", "ep_illegal_pseudo", "castle_legal", "castle_refused_in_check", "castle_refused_transit", "castle_refused_target", "castle_allowed_bfile_attacked",
+		Required: []string{"nodes_after_hascheck_query", "ep_legal", "ep_illegal_pseudo", "castle_legal", "castle_refused_in_check", "castle_refused_transit", "castle_refused_target", "castle_allowed_bfile_attacked",
 			"promo_moves", "promo_capture", "underpromo_evasion", "double_check", "in_check_nodes", "perft_compared", "tree_nodes", "from_fen_nodes", "by_play_nodes"},
 		MinEvals: 1000,
 	})
 }
 
 type c01state struct {
+	nodeNo int
 	c  *Ctx
 	mg *movegen.Movegen
 }
@@ -54,6 +55,14 @@ func (s *c01state) compareNode(p *position.Position, b *rc.Board, how string, ct
 	want := map[uint32]rc.Move{}
 	for _, m := range ref {
 		want[rcKey(m)] = m
+	}
+	// the position object may have been asked other things before (the search asks for the
+	// in-check status at every node): cached answers must not change the legal list
+	s.nodeNo++
+	if s.nodeNo%2 == 0 {
+		p.HasCheck()
+		how += "+after-HasCheck"
+		rep.Inc("nodes_after_hascheck_query")
 	}
 	got := s.mg.GenerateLegalMoves(p, movegen.GenAll)
 	seen := map[uint32]int{}
